@@ -776,7 +776,7 @@ def do_check(prop, tier, only, keep, jobs, write_evidence=True):
                            'inputs_raw': res.get('counterexample_raw'),
                            'native_replay': res['native_replay'], 'command': res['cmd'],
                            'harness': obl.s['harness'], 'defines': obl.defines,
-                           'verifier_output': open(os.path.join(obl.dir, 'cbmc.json')).read()[-20000:]},
+                           'verifier_output': (open(os.path.join(obl.dir, 'cbmc.json')).read()[-20000:] if os.path.exists(os.path.join(obl.dir, 'cbmc.json')) else json.dumps(res.get('counterexample'))[:20000])},
                           open(rp, 'w'), indent=1)
                 violations.append((res, rp, ok))
         for res, rp, ok in violations:
